@@ -67,7 +67,7 @@ class Sym:
     For ints, `supp` is an upper bound on the set of bits that may be 1 (only
     meaningful for values known to be >= 0; None = unknown).
     """
-    __slots__ = ('t', 'ty', 'supp', 'bf', 'pieces', 'p2')
+    __slots__ = ('t', 'ty', 'supp', 'bf', 'pieces', 'p2', 'xor')
 
     def __init__(self, t, ty, supp=None, bf=None, pieces=None):
         self.t = t
@@ -76,6 +76,7 @@ class Sym:
         self.bf = bf      # (base term, offset, length|None): value == bits(base, offset, length)  (normal form)
         self.pieces = pieces  # [(shift, width, term)]: value == sum term_i * 2^shift_i, 0 <= term_i < 2^width_i, disjoint
         self.p2 = None        # ('pow', k) if value == 2**k ; ('mask', k) if value == 2**k - 1   (k a z3 Int term)
+        self.xor = None       # (a, b) if value == a ^ b  (kept so that (a ^ b) & m == 0 becomes a & m == b & m)
 
     def __repr__(self):
         s = str(self.t)
@@ -407,6 +408,12 @@ def bitop(op, a, b):
     ta, tb = pytype(a), pytype(b)
     if ta not in ('int', 'bool') or tb not in ('int', 'bool'):
         return NotImplemented
+    if op == '&':
+        for p_, q_ in ((a, b), (b, a)):
+            if isinstance(p_, Sym) and getattr(p_, 'xor', None) is not None and isinstance(q_, int) and not isinstance(q_, bool) and q_ >= 0:
+                x_, y_ = p_.xor
+                r_ = bitop('^', bitop('&', x_, q_), bitop('&', y_, q_))       # (x ^ y) & m == (x & m) ^ (y & m)
+                return r_
     if ta == 'bool' and tb == 'bool' and op in ('&', '|', '^'):
         x, y = bool_term(a), bool_term(b)
         return mk_bool({'&': z3.And, '|': z3.Or, '^': z3.Xor}[op](x, y))
@@ -494,7 +501,32 @@ def bitop(op, a, b):
             return arith('+', a, b)
         w = max(sa.bit_length(), sb.bit_length(), 1)
         f = (lambda p, q: p | q) if op == '|' else (lambda p, q: p ^ q)
-        return mk_int(z3.BV2Int(f(_to_bv(a, w), _to_bv(b, w))), sa | sb)
+        r_ = mk_int(z3.BV2Int(f(_to_bv(a, w), _to_bv(b, w))), sa | sb)
+        if op == '^' and isinstance(r_, Sym):
+            r_.xor = (a, b)
+        return r_
+    # supports unknown: exact through 128-bit vectors when both operands are provably in [0, 2^128) on this path
+    c = ctx()
+    if c is not None:
+        rng = []
+        for x_ in (a, b):
+            if isinstance(x_, Sym):
+                rng.append(z3.And(int_term(x_) >= 0, int_term(x_) < (1 << 128)))
+            elif not (0 <= x_ < (1 << 128)):
+                rng = None
+                break
+        if rng is not None:
+            need = z3.And(*rng) if rng else z3.BoolVal(True)
+            s_ = z3.Solver()
+            s_.set('timeout', 3000)
+            s_.add(*c.pc)
+            s_.add(z3.Not(need))
+            if s_.check() == z3.unsat:
+                f = (lambda p, q: p | q) if op == '|' else (lambda p, q: p ^ q)
+                r_ = mk_int(z3.BV2Int(f(_to_bv(a, 128), _to_bv(b, 128))), (1 << 128) - 1)
+                if op == '^' and isinstance(r_, Sym):
+                    r_.xor = (a, b)
+                return r_
     raise Unsupported(f'{op} on symbolic ints whose bit support is unknown (operands: {a!r}, {b!r})')
 
 
@@ -505,6 +537,10 @@ def compare(op, a, b):
         if op == '!=':
             return not ((a is None) and (b is None)) if not (isinstance(a, Sym) or isinstance(b, Sym)) else True
         raise Unsupported('ordering comparison with None')
+    if op in ('==', '!='):
+        for p_, q_ in ((a, b), (b, a)):
+            if isinstance(p_, Sym) and getattr(p_, 'xor', None) is not None and not isinstance(q_, Sym) and q_ == 0 and not isinstance(q_, bool):
+                return compare(op, p_.xor[0], p_.xor[1])        # x ^ y == 0  <=>  x == y
     if not (is_numeric(a) and is_numeric(b)):
         if op == '==':
             return False
